@@ -896,6 +896,11 @@ func (e *Env) evalCall(x *Expr) TV {
 			return TV{Scalar{App("typeis_"+sanitize(name), BoolSort, a.Typ)}, nil}
 		}
 		return TV{Scalar{Eq(a.Typ, IntLit(int64(typeID(t))))}, nil}
+	case "tyid":
+		// tyid(x): the dynamic type of an interface value (as an integer id; 0 for the nil interface)
+		if a, ok := arg(0).V.(IfaceV); ok {
+			return TV{Scalar{a.Typ}, nil}
+		}
 	case "iserrno":
 		// iserrno(err, n): err holds the syscall.Errno value n (same encoding as MakeInterface of an integer)
 		a := arg(0).V.(IfaceV)
